@@ -3,9 +3,11 @@ package main
 // C12 — event reporting observes evaluation faithfully without changing it.
 
 import (
+	"context"
 	"fmt"
 	"math/rand"
 	"sync"
+	"time"
 
 	"github.com/onheap/eval"
 )
@@ -39,7 +41,7 @@ func init() {
 					u = append(u, fmt.Sprintf("only %d non-trivial cases with consumer timing %s", m.C("nontrivial_"+t), t))
 				}
 			}
-			for _, c := range []string{"opexec_events", "loop_events", "tryeval_event_runs", "failed_applications_seen", "andor_applications_seen", "mode_debug", "mode_report_event", "events_retained_across_evaluations", "handle_debug_event_runs", "race_evaluations", "race_events_formatted"} {
+			for _, c := range []string{"opexec_events", "loop_events", "tryeval_event_runs", "failed_applications_seen", "andor_applications_seen", "mode_debug", "mode_report_event", "events_retained_across_evaluations", "handle_debug_event_runs", "race_evaluations", "race_events_formatted", "caller_context_kind_2", "caller_context_kind_3"} {
 				if m.C(c) == 0 {
 					u = append(u, c+" = 0")
 				}
@@ -151,8 +153,24 @@ func opExecOnly(evs []EvRec) []EvRec {
 }
 
 // runWithConsumer evaluates e under one consumer timing and returns outcome and events.
+// c12CallerCtx: what the caller put into Ctx.Ctx (0 nothing, 1 a live context, 2 one that is already cancelled, 3 one
+// whose deadline has passed). The engine carries it for operators and fetchers; it never decides what is reported.
+var c12CallerCtx int
+
 func runWithConsumer(e *eval.Expr, kind CallKind, f *RecFetcher, timing string) (Outcome, []EvRec) {
 	ctx := &eval.Ctx{VariableFetcher: f}
+	switch c12CallerCtx {
+	case 1:
+		ctx.Ctx = context.Background()
+	case 2:
+		c, cancel := context.WithCancel(context.Background())
+		cancel()
+		ctx.Ctx = c
+	case 3:
+		c, cancel := context.WithDeadline(context.Background(), time.Unix(1, 0))
+		defer cancel()
+		ctx.Ctx = c
+	}
 	call := func() (eval.Value, error) {
 		if kind == CallTryEval {
 			return e.TryEval(ctx)
@@ -317,7 +335,10 @@ func c12Run(w *W, idx int) {
 			po, _ := callExpr(plain.E, kind, fetcherFor(b, nil), nil, false)
 			w.Evals++
 			timing := []string{"sync", "buffered", "mutating"}[(bi+int(kind)+idx)%3]
+			c12CallerCtx = (bi + idx/3) % 4
+			w.Inc(fmt.Sprintf("caller_context_kind_%d", c12CallerCtx))
 			eo, evs := runWithConsumer(evv.E, kind, fetcherFor(b, nil), timing)
+			c12CallerCtx = 0
 			w.Evals++
 			what := []string{"Eval", "TryEval"}[kind]
 			if eo.Panic != nil {
